@@ -232,3 +232,39 @@ Example C01_real_events_recursive :
   /\ Parser.parse cfg_strict conv_c05 u_tree (Some root_tree)
        (pump (expected_of conv_c05 (EventGen.generate false conv_c05 u_tree o_tree))) = Parser.Ok o_tree [].
 Proof. exact real_events_tree. Qed.
+
+(* ---- instances of subclasses (xsi:type) ------------------------------------------------------ *)
+(* A class-typed field may hold an instance of a strict subclass of its declared class (clause
+   derived_ok of fits): the serializer announces it with an xsi:type attribute whose value is the
+   QName of the subclass, `reads` resolves that value through the prefix map of the start event,
+   and the parser finds the subclass in the type registry (XmlContext.find_subclass).  Model `inh`
+   exported from the real code (Sub(Base) in another namespace; a scalar and a list field of type
+   Base holding Base and Sub instances): inside the guards, and the events both real handlers
+   delivered for both real writers' output read as the expected tree and are parsed back *)
+Example C01_guards_subclass_inhabited :
+  wf_model u_inh root_inh = true
+  /\ fits conv_c05 u_inh ok_c05 py_isspace 2 root_inh o_inh = true
+  /\ exact_classes u_inh 2 root_inh o_inh = false.
+Proof. exact guards_inh. Qed.
+
+Example C01_real_events_subclass :
+  (match expected_inh with Some e => reads_b e pevs_inh_native | None => false end) = true
+  /\ (match expected_inh with Some e => reads_b e pevs_inh_lxml | None => false end) = true
+  /\ Parser.parse cfg_strict conv_c05 u_inh (Some root_inh) pevs_inh_native = Parser.Ok o_inh []
+  /\ Parser.parse cfg_strict conv_c05 u_inh (Some root_inh) pevs_inh_lxml = Parser.Ok o_inh [].
+Proof. exact real_events_inh. Qed.
+
+(* clause `t <> v_qname v` of derived_ok (known finding C01-F8, found while proving this slice): when the
+   type qname of the subclass equals the element name of the field, EventGenerator.real_xsi_type
+   drops xsi:type and the parser builds the declared class: R(item=item(x=1, y=2)) is written
+   <R><item x="1" y="2"/></R> and rejected (unknown attribute y of Base); the faithful models agree
+   with the real parser on the real events *)
+Theorem C01_xsi_type_dropped_refuted :
+  wf_model u_xdrop root_xdrop = true
+  /\ fits conv_c05 u_xdrop ok_c05 py_isspace 2 root_xdrop o_xdrop = false
+  /\ has_xsi_type_event (EventGen.generate false conv_c05 u_xdrop o_xdrop) = false
+  /\ ParserCorr.outcome_eqb composition_xdrop (Parser.Ok o_xdrop []) = false
+  /\ ParserCorr.outcome_eqb (Parser.parse cfg_strict conv_c05 u_xdrop (Some root_xdrop) pevs_xdrop) (Parser.Ok o_xdrop []) = false
+  /\ ParserCorr.outcome_eqb composition_xdrop (Parser.parse cfg_strict conv_c05 u_xdrop (Some root_xdrop) pevs_xdrop) = true.
+Proof. exact xsi_type_dropped_refuted. Qed.
+Print Assumptions C01_xsi_type_dropped_refuted.
